@@ -130,15 +130,30 @@ def run(eng, rep, tier):
     dup = [ev for ev, _ in calls(se, "_duplication_processing", own=True)]
     prd = [ev for ev, _ in calls(se, "_production_process", own=True)]
     ob.decide("R7", "C17.4", fe, "dispatch-on-both-rule-kinds",
-              bool(dup) and bool(prd) and all(has_fact(ev.facts, "is_duplication()", True) for ev in dup) and
-              all(has_fact(ev.facts, "is_production()", True) for ev in prd),
+              # (the rule list the loop walks holds duplication and production rules only - consumption and end rules
+              # are kept elsewhere - so `else` of one kind test selects the other kind)
+              bool(dup) and bool(prd) and
+              all(has_fact(ev.facts, "is_duplication()", True) or has_fact(ev.facts, "is_production()", False) for ev in dup) and
+              all(has_fact(ev.facts, "is_production()", True) or has_fact(ev.facts, "is_duplication()", False) for ev in prd),
               "duplication and production rules are both processed, each under its kind test",
               "the marking loop does not process both duplication and production rules", se, site=site_of(prog, fe, fe.node))
     # the continuation flag of the marking loop derives from the results of both processing routines (through whatever
     # locals, tuple unpacking or merged tails the code uses)
     from .flow import name_origins
     from .flow import helper_origins, helpers_of
-    flags = {w.test.id for w in ast.walk(fe.node) if isinstance(w, ast.While) and isinstance(w.test, ast.Name)}
+    def _is_worklist(w, name):
+        """the loop's test variable is a collection the body takes elements out of, not a boolean flag"""
+        for c in ast.walk(w):
+            if isinstance(c, ast.Call):
+                if isinstance(c.func, ast.Attribute) and c.func.attr in ("pop", "popleft", "get") and \
+                        isinstance(c.func.value, ast.Name) and c.func.value.id == name:
+                    return True
+                if getattr(c.func, "id", getattr(c.func, "attr", None)) in ("heappop",) and c.args and \
+                        isinstance(c.args[0], ast.Name) and c.args[0].id == name:
+                    return True
+        return False
+    flags = {w.test.id for w in ast.walk(fe.node) if isinstance(w, ast.While) and isinstance(w.test, ast.Name)
+             and not _is_worklist(w, w.test.id)}
     for w in ast.walk(fe.node):          # `while True: ... if not flag: break`
         if isinstance(w, ast.While) and isinstance(w.test, ast.Constant) and w.test.value is True:
             for st in w.body:
@@ -155,7 +170,14 @@ def run(eng, rep, tier):
             if o.startswith("call:") and o[5:].startswith("_") and o[5:] in hs:
                 reach |= helper_origins(hs[o[5:]], hs)          # through a private generator / helper
     srcs = {o for o in reach if o in ("call:_duplication_processing", "call:_production_process")}
-    ob.decide("R7", "C17.4", fe, "continues-while-either-changed", len(srcs) >= 2,
+    if not flags:
+        # no round-robin loop driven by a change flag: the fixpoint is organised another way (a worklist of rules to
+        # revisit) - what makes that exact is which rules are re-queued when, not a flag
+        rep.error("R7", "C17.4", fe.qname, "continues-while-either-changed",
+                  "is_empty is not a flag-driven round-robin fixpoint any more; the rule cannot follow how rules are revisited",
+                  site=site_of(prog, fe, fe.node))
+    else:
+      ob.decide("R7", "C17.4", fe, "continues-while-either-changed", len(srcs) >= 2,
               "the continuation flag accumulates the change flags of both kinds",
               "the loop's continuation flag ignores one rule kind: the fixpoint stops early", None, site=site_of(prog, fe, fe.node))
     # -------------------------------------------------------------- C17.5 intersection goes through the transducer
